@@ -171,7 +171,7 @@ def fmt_steps(steps):
 
 def parse_exe(line):
     parts = line.split(" || ")
-    if len(parts) != 4:
+    if len(parts) not in (4, 5):
         return None
     steps = parse_steps(parts[0])
     times = [int(x) for x in parts[1][len("times="):].split(",") if x]
@@ -190,7 +190,11 @@ def parse_exe(line):
             tok, mid, nresp, nnack = e.split(":")
             reqs.append({"tok": int(tok), "mid": int(mid), "nresp": int(nresp), "nnack": int(nnack)})
     end["reqs"] = reqs
-    return {"steps": steps, "times": times, "log": log, "end": end}
+    srv = None
+    if len(parts) == 5 and parts[4].startswith("srv="):
+        first, _, rest = parts[4][4:].partition(" ")
+        srv = (int(first), rest.strip())
+    return {"steps": steps, "times": times, "log": log, "end": end, "srv": srv}
 
 
 def rx_fields(inp):
